@@ -431,7 +431,9 @@ pub fn decode_sd(data: &[u8], with_fault: bool) -> SdCase {
         init_polls: d.pick(&[0u16, 1, 5, 10_003]),
         cmd0_ignored: d.pick(&[0u8, 0, 0, 1, 2]),
         ocr_extra: d.pick(&[0u8, 0, 0x20, 0x01, 0x29]),
+        sluggish: false,
     };
+    let mut timing = timing;
     let use_crc = d.bool();
     let acquire_retries = d.pick(&[1u8, 2, 4, 50]);
     let fault = if with_fault {
@@ -443,7 +445,13 @@ pub fn decode_sd(data: &[u8], with_fault: bool) -> SdCase {
             5 => Fault::WriteStatus { nth_write: d.u8() as u16 % 4, r1: d.pick(&[0u8, 4, 0x40]), status: d.pick(&[0u8, 1, 0x80, 4]) },
             6 => Fault::DeadFrom { at: d.u16() as u32 % 5000 },
             7 => Fault::BusyFrom { at: d.u16() as u32 % 5000 },
-            8 => Fault::GarbageFrom { at: d.u16() as u32 % 5000, seed: d.u32() },
+            8 => {
+                if d.bool() {
+                    Fault::GarbageFrom { at: d.u16() as u32 % 5000, seed: d.u32() }
+                } else {
+                    Fault::StuckFrom { at: d.u16() as u32 % 11000, value: d.u8() | 0x80 }
+                }
+            }
             _ => {
                 if d.bool() {
                     Fault::SpiError { nth_transaction: d.u16() as u32 % 2000 }
@@ -486,7 +494,18 @@ pub fn decode_sd(data: &[u8], with_fault: bool) -> SdCase {
     if calls.is_empty() {
         calls.push(SdCall::Read { block: BlockSel::Zero, n: 1 });
     }
-    SdCase { kind, use_crc, acquire_retries, cap, timing, bg_seed: 5, calls, faults: fault.into_iter().collect() }
+    // trailing bytes: a sluggish card (ignores more CMD0 frames than a small host budget sends) and
+    // the kind of background (seeded, blank, erased)
+    if !with_fault && d.u8() % 8 == 1 {
+        timing.sluggish = true;
+        timing.cmd0_ignored += 3;
+    }
+    let bg_seed = match d.u8() % 8 {
+        1 => 0,
+        2 => 1,
+        _ => 5,
+    };
+    SdCase { kind, use_crc, acquire_retries, cap, timing, bg_seed, calls, faults: fault.into_iter().collect() }
 }
 
 // ------------------------------------------------------------------ targets
